@@ -10,7 +10,7 @@
 //! and the `h2` crate's client over `tokio-rustls` with ALPN `h2`.
 //!
 //! request  = (L method target headers body)
-//! cfg      = (L c00cfg (L request ...))          c00cfg: c00pipe keys + pkg, slow, echo
+//! cfg      = (L c00cfg (L request ...))          c00cfg: c00pipe keys + pkg, slow, echo, echon
 //! wire     = (L (N 0) (L (N 0) (L version status headers body)))   headers sorted, `last-modified` value masked
 //!          | (L (N 0) (L (N 3)))                 the HTTP/2 stream was reset without a response head
 //!
@@ -36,6 +36,8 @@ use tokio::io::{AsyncRead, AsyncReadExt, AsyncWrite, AsyncWriteExt};
 const T: Duration = Duration::from_secs(15);
 const PORT: u16 = 8443;
 const SENTINEL: &[u8] = b"SENTINEL-OK";
+/// pseudo header of a request (never sent): the HTTP/1.1 client writes the body this many ms after the head
+const LATE: &[u8] = b"x-c20-late-body";
 static TIMEOUTS: std::sync::atomic::AtomicU32 = std::sync::atomic::AtomicU32::new(0);
 fn read_timeout() -> Duration {
     if TIMEOUTS.load(std::sync::atomic::Ordering::Relaxed) >= 2 {
@@ -170,6 +172,29 @@ fn customize(kv: &[(String, X)], host: &mut Host, _shared: &Arc<c00pipe::Shared>
                     b.push(b':');
                     match req.body_mut().read_to_bytes(1 << 20).await {
                         Ok(data) => b.extend_from_slice(&data),
+                        Err(_) => b.extend_from_slice(b"<body read error>"),
+                    }
+                    let mut resp = Response::new(Bytes::from(b));
+                    resp.headers_mut().insert("content-type", HeaderValue::from_static("text/plain"));
+                    FatResponse::new(resp, comprash::ServerCachePreference::None).with_compress(comprash::CompressPreference::None)
+                }),
+            );
+        }
+    }
+    // echon: (L path limit) — answers "<METHOD>:" ++ the first `limit` bytes of the request body (`read_to_bytes(limit)`):
+    // the rest of the body is left unread
+    if let Some(hs) = kv_get(kv, "echon").and_then(X::as_l) {
+        for h in hs {
+            let Some([path, limit]) = h.as_l() else { continue };
+            let (Some(path), Some(limit)) = (path.as_b(), limit.as_n()) else { continue };
+            host.extensions.add_prepare_single(
+                c00pipe::leak(path),
+                prepare!(req, _host, _path, _addr, move |limit: u128| {
+                    let mut b = req.method().as_str().as_bytes().to_vec();
+                    b.push(b':');
+                    match req.body_mut().read_to_bytes(*limit as usize).await {
+                        // (the in-memory `Body::Bytes` of the layer-4 probe hands out everything whatever the limit: cut here)
+                        Ok(data) => b.extend_from_slice(&data[..data.len().min(*limit as usize)]),
                         Err(_) => b.extend_from_slice(b"<body read error>"),
                     }
                     let mut resp = Response::new(Bytes::from(b));
@@ -367,14 +392,32 @@ impl H1 {
         out.push(b' ');
         out.extend_from_slice(&r.target);
         out.extend_from_slice(b" HTTP/1.1\r\nhost: localhost:8443\r\n");
+        // `x-c20-late-body: <ms>`: the body is written <ms> after the head (another segment, whenever it arrives);
+        // `x-c20-late-body: after`: the body is written only when the response has been read — for requests that are answered
+        // without their body being read: the server then has, for certain, seen the head without any body byte
+        let mut late_ms = None;
+        let mut body_after = false;
         for (n, v) in &r.headers {
+            if n == LATE {
+                late_ms = std::str::from_utf8(v).ok().and_then(|s| s.parse::<u64>().ok());
+                body_after = v == b"after";
+                continue;
+            }
             out.extend_from_slice(n);
             out.extend_from_slice(b": ");
             out.extend_from_slice(v);
             out.extend_from_slice(b"\r\n");
         }
         out.extend_from_slice(b"\r\n");
-        out.extend_from_slice(&r.body);
+        if let Some(ms) = late_ms {
+            self.s.write_all(&out).await.map_err(|e| format!("write: {e}"))?;
+            self.s.flush().await.map_err(|e| format!("flush: {e}"))?;
+            tokio::time::sleep(Duration::from_millis(ms)).await;
+            out.clear();
+        }
+        if !body_after {
+            out.extend_from_slice(&r.body);
+        }
         self.s.write_all(&out).await.map_err(|e| format!("write: {e}"))?;
         self.s.flush().await.map_err(|e| format!("flush: {e}"))?;
 
@@ -424,6 +467,10 @@ impl H1 {
         }
         let body = buf[head_end..head_end + want].to_vec();
         self.pending = buf[head_end + want..].to_vec();
+        if body_after {
+            self.s.write_all(&r.body).await.map_err(|e| format!("write (body after the response): {e}"))?;
+            self.s.flush().await.map_err(|e| format!("flush: {e}"))?;
+        }
         Ok(Wire::Resp { version, status, headers: canon_headers(headers), body })
     }
     /// the framing of everything before held: a sentinel GET is answered with the sentinel, nothing is left over
@@ -442,7 +489,9 @@ struct H2 {
 impl H2 {
     async fn open(desc: impl Into<Target>) -> Result<H2, String> {
         let s = connect_tls(desc.into(), tls().client_h2.clone(), b"h2").await?;
-        let (send, conn) = tokio::time::timeout(T, h2::client::Builder::new().initial_window_size(1 << 22).handshake::<_, Bytes>(s))
+        // the default windows (65535 per stream and per connection): an answer larger than that (an echoed 70 kB / 150 kB body)
+        // is only received completely if the server's h2 side waits for this client's WINDOW_UPDATEs
+        let (send, conn) = tokio::time::timeout(T, h2::client::Builder::new().handshake::<_, Bytes>(s))
             .await
             .map_err(|_| timed_out("h2 handshake"))?
             .map_err(|e| format!("h2 handshake: {e}"))?;
@@ -456,7 +505,7 @@ impl H2 {
         let mut uri = b"https://localhost:8443".to_vec();
         uri.extend_from_slice(&r.target);
         let mut b = Request::builder().method(Method::from_bytes(&r.method).map_err(|e| e.to_string())?).uri(Uri::try_from(&uri[..]).map_err(|e| e.to_string())?);
-        for (n, v) in &r.headers {
+        for (n, v) in r.headers.iter().filter(|(n, _)| n != LATE) {
             b = b.header(HeaderName::from_bytes(n).map_err(|e| e.to_string())?, HeaderValue::from_bytes(v).map_err(|e| e.to_string())?);
         }
         let req = b.body(()).map_err(|e| e.to_string())?;
@@ -542,7 +591,7 @@ fn l4(x: &X) -> X {
         let Some(b) = built.as_ref() else { return X::bad() };
         let Some(host) = b.hosts.get_host(&b.host_name) else { return X::bad() };
         let r = resolve(r);
-        let hdrs: Vec<X> = r.headers.iter().map(|(n, v)| X::L(vec![X::b(n), X::b(v)])).collect();
+        let hdrs: Vec<X> = r.headers.iter().filter(|(n, _)| n != LATE).map(|(n, v)| X::L(vec![X::b(n), X::b(v)])).collect();
         let Some(mut req) = c00pipe::make_request("localhost:8443", &r.method, &r.target, &hdrs, &r.body) else { return X::L(vec![X::N(96)]) };
         let (reply, e416) = rt().block_on(async {
             let reply = kvarn::handle_cache(&mut req, c00pipe::sockaddr(1), host).await;
@@ -615,7 +664,9 @@ fn pair(x: &X, flags: bool) -> X {
         let w1 = history_h1(da, secure1, &reqs).await;
         if flags {
             let w2 = history_h2(db, &reqs).await;
-            return X::L(vec![X::bool(w1.is_ok()), X::bool(w2.is_ok())]);
+            // answered = every request got a response head and body, and the connection's framing was intact afterwards
+            let all = |w: &Result<Vec<Wire>, (usize, String)>| matches!(w, Ok(v) if v.iter().all(|w| matches!(w, Wire::Resp { .. })));
+            return X::L(vec![X::bool(all(&w1)), X::bool(all(&w2))]);
         }
         let w1 = match w1 {
             Ok(w) => w,
